@@ -34,9 +34,15 @@ void engineCodec(const std::vector<std::string> &, const std::vector<std::string
             toPacket(m, packet);
             outLine("BYTES " + io::tokOfBytes(packet));
         } else if (w[0] == "DEC" && w.size() == 2) {
-            Exact e(io::bstrOfTok(w[1]));
+            // the decoded value must own its data: the datagram buffer is wiped and released before the message is read
             Message m;
-            if (fromPacket(e.arr, m)) {
+            bool ok;
+            {
+                Exact e(io::bstrOfTok(w[1]));
+                ok = fromPacket(e.arr, m);
+                memset(e.buf, 0x23, size_t(e.arr.size()));
+            }
+            if (ok) {
                 outLine("OK " + io::tokOfMessage(m));
                 // any message that is returned can be re-encoded without a memory error
                 QByteArray again;
@@ -45,16 +51,26 @@ void engineCodec(const std::vector<std::string> &, const std::vector<std::string
                 outLine("FAIL");
             }
         } else if (w[0] == "PNAME" && w.size() == 3) {
-            Exact e(io::bstrOfTok(w[1]));
             quint16 off = quint16(std::stoul(w[2]));
             QByteArray name;
-            if (parseName(e.arr, off, name)) outLine("OK " + io::tokOfBstr(name) + " " + std::to_string(off));
+            bool ok;
+            {
+                Exact e(io::bstrOfTok(w[1]));
+                ok = parseName(e.arr, off, name);
+                memset(e.buf, 0x23, size_t(e.arr.size()));
+            }
+            if (ok) outLine("OK " + io::tokOfBstr(name) + " " + std::to_string(off));
             else outLine("FAIL");
         } else if (w[0] == "PREC" && w.size() == 3) {
-            Exact e(io::bstrOfTok(w[1]));
             quint16 off = quint16(std::stoul(w[2]));
             Record r;
-            if (parseRecord(e.arr, off, r)) outLine("OK " + io::tokOfRecord(r) + " " + std::to_string(off));
+            bool ok;
+            {
+                Exact e(io::bstrOfTok(w[1]));
+                ok = parseRecord(e.arr, off, r);
+                memset(e.buf, 0x23, size_t(e.arr.size()));
+            }
+            if (ok) outLine("OK " + io::tokOfRecord(r) + " " + std::to_string(off));
             else outLine("FAIL");
         } else {
             throw std::runtime_error("codec op: " + l);
